@@ -763,10 +763,20 @@ class Context:
             # not JSON
             raise json.JSONDecodeError(f"Unexpected token {name}", name, 0)
 
+        def parse_integer(token):
+            # A JSON number is a double: "-0" keeps its sign and a digit string
+            # beyond 2**53 denotes the nearest double (or Infinity)
+            value = float(token)
+            if value == 0 and token.startswith("-"):
+                return value
+            return int(value) if abs(value) <= 2**53 else value
+
         def parse_fn(*args):
             text = to_string(args[0]) if args else ""
             try:
-                py_value = json.loads(text, parse_constant=reject_constant)
+                py_value = json.loads(
+                    text, parse_constant=reject_constant, parse_int=parse_integer
+                )
                 return ctx._to_js(py_value)
             except json.JSONDecodeError as e:
                 from .errors import JSSyntaxError
